@@ -532,6 +532,22 @@ class SymEnv:
         """exact equality of all elements (term level, decided by the solver)"""
         return self.close(name, a, b, eps=Fraction(0), info=info)
 
+    def check_close(self, a, b, scale=1, eps=EPS, extra=None):
+        """verdict ('unsat' = holds, 'sat', 'unknown') of |a-b| <= eps*scale without recording an obligation"""
+        cl = []
+        tol = as_term(eps) * as_term(scale)
+        for _idx, x, y in _flatten_pairs(a, b):
+            for xt, yt in zip(V.terms_of(x), V.terms_of(y)):
+                d = z3.simplify(xt - yt)
+                if z3.is_rational_value(d) and d.numerator_as_long() == 0:
+                    continue
+                cl.append(z3.And(d <= tol, -d <= tol))
+        if not cl:
+            return "unsat", None
+        neg = z3.Not(z3.And(*cl))
+        r, m = self.p._check(neg, *(extra or ()))
+        return r, m
+
     def reach(self, name="reach", hints=()):
         """reachability twin: the path condition and assumptions must be satisfiable here
 
@@ -667,6 +683,12 @@ class ConcEnv:
 
     def same(self, name, a, b, info=False):
         return self.close(name, a, b, eps=Fraction(1, 10**12), info=info)
+
+    def check_close(self, a, b, scale=1, eps=EPS, extra=None):
+        worst = 0.0
+        for _idx, x, y in _flatten_pairs(a, b):
+            worst = max(worst, abs(complex(x) - complex(y)))
+        return ("unsat" if worst <= max(float(eps) * float(scale), 1e-11 * float(scale)) else "sat"), None
 
     def reach(self, name="reach", hints=()):
         pass
